@@ -182,6 +182,46 @@ def header_problem(value, name, ext):
     return None
 
 
+def routed_status(eng, w, owner_busy):
+    """the same poll through Application.dispatch(): two queue servers are configured, the collection's jobs live on
+    the first one (possibly flagged busy by the watcher), the second one is idle and knows nothing"""
+    from mwlib.core import nserve
+
+    class Params(dict):
+        pass
+
+    class Req:
+        params = Params(command="render_status", collection_id=CID, writer=w)
+        url = "http://render.test/"
+
+    owner, other = ("qs-owner.test", 14311), ("qs-other.test", 14312)
+
+    class Routed:
+        def __init__(self, host=None, port=None):
+            self.host = host
+
+        def qinfo(self, jobid):
+            if self.host == owner[0]:
+                return Proxy(eng).qinfo(jobid)
+            return None
+
+    saved = (nserve.rpcclient.ServerProxy, dict(nserve.busy))
+    nserve.rpcclient.ServerProxy = Routed
+    nserve.busy.clear()
+    nserve.busy[owner] = owner_busy
+    nserve.busy[other] = False
+    nserve.collid2qserve[CID] = owner
+    try:
+        import contextlib
+        import io
+        with contextlib.redirect_stdout(io.StringIO()), contextlib.redirect_stderr(io.StringIO()):
+            return nserve.Application().dispatch(Req())
+    finally:
+        nserve.rpcclient.ServerProxy = saved[0]
+        nserve.busy.clear()
+        nserve.busy.update(saved[1])
+
+
 def check_status(app, eng, ck, fed, R, ops, name2writer):
     """ask status for every writer, compare with the reference; returns new fed index"""
     for w in WRITERS:
@@ -196,6 +236,18 @@ def check_status(app, eng, ck, fed, R, ops, name2writer):
             continue
         R.count("status_checks")
         R.count("state_" + exp["state"])
+        # routed through dispatch(): the answer must not depend on the owning queue server being flagged busy
+        busy_flag = (False, "system overloaded", "system down")[(len(ops) + WRITERS.index(w)) % 3]
+        try:
+            via = routed_status(eng, w, busy_flag)
+            R.count("routed_status_checks")
+            if isinstance(via, dict) and "error" in via and "overloaded" in str(via.get("error")):
+                R.count("routed_refused_as_overloaded")
+            elif not isinstance(via, dict) or via.get("state") != got.get("state") or via.get("error") != got.get("error"):
+                R.violation("status:routing:answer-depends-on-busy-flag", "asked through dispatch() with the owning queue server flagged %r "
+                            "the answer is %r, asked directly it is %r" % (busy_flag, via, got), {"ops": ops, "writer": w, "busy": busy_flag})
+        except Exception as e:
+            R.violation("status:routing:raises:%s" % type(e).__name__, "dispatch(render_status) raised %r" % (e,), {"ops": ops, "writer": w})
         if any(jid_r(x) in ck.jobs for x in WRITERS if x != w):
             R.count("other_writer_present")
         case = {"ops": ops, "writer": w}
